@@ -5,7 +5,7 @@ key shapes x value shapes x YAML fence x terminators x bodies) and update histor
 history is replayed through the C-string, DString and engine families (the latter with ONE engine object across all calls) and the command
 line (-m, -e); MetadataTrace requires every recorded answer to be the specification's.
 """
-import json, os, random, subprocess
+import json, os, random, subprocess, html.parser
 from vlib import *  # noqa
 import docs
 
@@ -41,7 +41,27 @@ def script(h, fam):
         else: out.append(line("meta", fam, "m%d" % i, "upd", sx(enc(u["ks"])), sx(enc(u["us"])), "m%d" % (i + 1)))
         out += reads("m%d" % (i + 1))
     if fam in "ep": out.append(line("e_free", 0))
+    if fam == "s":
+        # the complete document carries the same values: <title> and <meta name= content=> of the HTML head, read back with an HTML parser
+        last = "m%d" % len(h["upds"])
+        out.append(line("conv", "s_conv", last, docs.FMT["html"], docs.EXT["COMPLETE"], 0))
     return out
+
+
+class Head(html.parser.HTMLParser):
+    def __init__(self):
+        super().__init__(convert_charrefs=True); self.pairs = []; self.in_title = False; self.done = False
+    def handle_starttag(self, tag, attrs):
+        a = dict(attrs)
+        if self.done: return
+        if tag == "title": self.in_title = True; self.pairs.append(["title", ""])
+        elif tag == "meta" and "name" in a: self.pairs.append([a["name"], a.get("content") or ""])
+        elif tag == "body": self.done = True
+    def handle_endtag(self, tag):
+        if tag == "title": self.in_title = False
+        if tag == "head": self.done = True
+    def handle_data(self, data):
+        if self.in_title and not self.done: self.pairs[-1][1] += data
 
 
 def to_trace(h, evs, fam):
@@ -50,6 +70,10 @@ def to_trace(h, evs, fam):
     text = enc(h["src"]); ui = 0
     keyid = {enc(k).decode("latin-1"): i + 1 for i, k in enumerate(h["keys"])}
     for ev in evs:
+        if ev.get("e") == "conv" and fam == "s":
+            hp = Head(); hp.feed(dec((ev.get("out") or "").encode("latin-1")))
+            tr.append(dict(e="head", null=ev["null"], pairs=hp.pairs))
+            continue
         if ev.get("e") != "meta": continue
         op = ev["op"]
         if op == "has":
@@ -107,7 +131,7 @@ def run(tier, seed):
     for i, h in enumerate(hists):
         for f in fams:
             if f != "e" and len(h["upds"]) > 0 and i % 2 and f == "d": continue
-            segs.append(["seg\tmeta"] + script(h, f)); owners.append((i, f))
+            segs.append(["seg\tmeta", "wantout\t1"] + script(h, f)); owners.append((i, f))
     # the caller of a re-used engine owns the text: parse document A, put document B of the same length (other keys, other values) in its place, query
     bylen = {}
     for i, h in enumerate(hists):
